@@ -19,6 +19,9 @@ along with the GNU MP Library; see the file COPYING.LIB.  If not, write to
 the Free Software Foundation, Inc., 51 Franklin Street, Fifth Floor, Boston,
 MA 02110-1301, USA. */
 
+#include <stdio.h>
+#include <stdlib.h>
+#include <limits.h>
 #include "mpir.h"
 #include "gmp-impl.h"
 
@@ -27,6 +30,14 @@ mpz_init2 (mpz_ptr x, mp_bitcnt_t bits)
 {
   mp_size_t  limbs;
   limbs = (bits + GMP_NUMB_BITS-1) / GMP_NUMB_BITS;
+  /* _mp_alloc and _mp_size are ints: a larger count cannot be recorded, and
+     storing it would leave a negative allocation and size behind */
+  if (UNLIKELY (limbs > INT_MAX))
+    {
+      fprintf (stderr, "gmp: overflow in mpz type\n");
+      abort ();
+    }
+
   limbs = MAX (limbs, 1);
   SIZ(x) = 0;
   ALLOC(x) = limbs;
